@@ -64,6 +64,9 @@ def _raise_if_mod(k, r):
     return f
 
 
+SHARED_NAN = float('nan')
+
+
 def fn1(d):
     if d is None:
         return lambda i: i
@@ -119,6 +122,10 @@ def fn1(d):
     if n == 'none_if_mod':
         k, r = d[1], d[2]
         return lambda x: None if x % k == r else x
+    if n == 'nan_if_mod':
+        # ONE shared NaN object: identical but, by !=, different from itself (Python only; outside the model's value domain)
+        k, r = d[1], d[2]
+        return lambda x: SHARED_NAN if x % k == r else x
     if n == 'str_of':
         return lambda x: ''.join(list(str(x)))
     if n == 'big_of':
